@@ -171,7 +171,8 @@ pub fn replay(a: &HashMap<String, String>) -> i32 {
         let ti = TrainIn::from_json(&v["in"]);
         let hist: Vec<u8> = v["hist"].as_array().unwrap().iter().map(|x| x.as_u64().unwrap() as u8).collect();
         let rw = v["randw"].as_i64().filter(|x| *x >= 0).map(|x| x as u64);
-        run_training(&ti, &hist, &mut evs, rw);
+        let pat: Option<Vec<i64>> = v["wpat"].as_array().map(|a| a.iter().map(|x| x.as_i64().unwrap_or(0)).collect());
+        run_training_pat(&ti, &hist, &mut evs, rw, pat.as_deref());
     }
     let mut f = std::io::BufWriter::new(std::fs::File::create(out).expect("create"));
     for e in &evs {
@@ -182,8 +183,10 @@ pub fn replay(a: &HashMap<String, String>) -> i32 {
 
 fn gen_cells(rng: &mut Rng) -> Vec<String> {
     let vals = ["N", "V", "*", "名詞", "q,r", "x", "y"];
-    let n = 1 + rng.below(3);
-    (0..n).map(|_| rng.pick(&vals).to_string()).collect()
+    // mostly 1-3 cells; one row in eight has 11-13 (templates may name two-digit columns)
+    let n = if rng.chance(1, 8) { 11 + rng.below(3) } else { 1 + rng.below(3) };
+    // one cell in sixteen is empty (an empty string is a feature value like any other)
+    (0..n).map(|_| if rng.chance(1, 16) { String::new() } else { rng.pick(&vals).to_string() }).collect()
 }
 
 pub fn gen_rules(rng: &mut Rng) -> Value {
@@ -381,6 +384,31 @@ fn randomise_weights(m: &mut Model, rng: &mut Rng) {
     m.verif_set_raw(&raw);
 }
 
+/// Sets every bigram weight by the position of its template: an entry (a, b) of the bigram weight
+/// table belongs to the template whose tag `B<k>:` starts the name of feature a (of b for the
+/// BOS side) and gets the weight pat[k]; unigram weights become 0.  Used by deterministic probes.
+fn pattern_weights(m: &mut Model, pat: &[i64]) {
+    let mut raw = m.verif_raw();
+    let (_, l, r) = m.verif_feature_maps();
+    let tag = |names: &Vec<(String, u32)>, id: u32| -> Option<usize> {
+        let n = &names.iter().find(|(_, i)| *i == id)?.0;
+        let rest = n.strip_prefix('B')?;
+        rest.split(':').next()?.parse().ok()
+    };
+    for w in raw.weights.iter_mut() {
+        *w = 0.0;
+    }
+    for (a, row) in raw.bigram_weight_indices.clone().iter().enumerate() {
+        for (b, widx) in row {
+            let k = if a != 0 { tag(&l, a as u32) } else { tag(&r, *b) };
+            if let Some(k) = k {
+                raw.weights[*widx as usize] = pat[k % pat.len()] as f64;
+            }
+        }
+    }
+    m.verif_set_raw(&raw);
+}
+
 fn quantise(m: &mut Model) {
     let mut raw = m.verif_raw();
     let maxabs = raw.weights.iter().fold(0f64, |a, w| a.max(w.abs()));
@@ -397,6 +425,10 @@ fn reload(m: &Model) -> Option<Model> {
 }
 
 fn run_training(ti: &TrainIn, hist: &[u8], out: &mut Vec<Value>, randw: Option<u64>) {
+    run_training_pat(ti, hist, out, randw, None)
+}
+
+fn run_training_pat(ti: &TrainIn, hist: &[u8], out: &mut Vec<Value>, randw: Option<u64>, wpat: Option<&[i64]>) {
     // events are pushed as they happen, so that what preceded a panic stays in the trace
     let r = catch_unwind(AssertUnwindSafe(|| -> Result<(), String> {
         let log = &mut *out;
@@ -409,6 +441,9 @@ fn run_training(ti: &TrainIn, hist: &[u8], out: &mut Vec<Value>, randw: Option<u
         quantise(&mut model);
         if let Some(sd) = randw {
             randomise_weights(&mut model, &mut Rng::new(sd));
+        }
+        if let Some(pat) = wpat {
+            pattern_weights(&mut model, pat);
         }
         log.push(json!({"ev": "tsession", "in": ti.to_json(), "hist": hist, "randw": randw.map(|x| x as i64).unwrap_or(-1)}));
         log.push(json!({"ev": "model", "m": model_json(&model)}));
